@@ -429,3 +429,166 @@ func ruleJumpAgreement(c *Ctx) {
 		c.Fail("decoder-shared", "pkg/vm/context.go", "vm.Context no longer embeds scparser.Context: the interpreter and the static script check may decode instructions differently")
 	}
 }
+
+// ---------------------------------------------------------------------------
+// C07 attr-exhaustive
+
+func ruleAttrExhaustive(c *Ctx) {
+	kinds := c.P.constsOfType(txPkg, "AttrType")
+	real := map[string]bool{}
+	for k := range kinds {
+		if !strings.HasPrefix(k, "Reserved") {
+			real[k] = true
+		}
+	}
+	c.Floor("attribute kinds", len(real), 5)
+	pk := c.P.Pkg(txPkg)
+	check := func(fd *FuncDecl, name string, needReject bool) {
+		if fd == nil {
+			c.Lost(name+".anchor", name+" not found")
+			return
+		}
+		f := c.P.NewFuncCFG(fd)
+		sws := constSwitches(fd.Pkg.TypesInfo, fd.Decl.Body, txPkg, "AttrType")
+		if len(sws) == 0 {
+			c.Lost(name+".switch", "no switch over the attribute type in "+name)
+			return
+		}
+		sort.Slice(sws, func(i, j int) bool { return len(sws[i]) > len(sws[j]) })
+		seen := map[string]bool{}
+		var def *switchArm
+		for i, a := range sws[0] {
+			if a.Default {
+				def = &sws[0][i]
+			}
+			for _, k := range a.Consts {
+				seen[k] = true
+			}
+		}
+		if d := setDiff(real, seen); len(d) > 0 {
+			c.Fail(name+".exhaustive", c.P.Pos(fd.Decl.Pos()), fmt.Sprintf("%s has no arm for attribute kinds %v: such an attribute can be decoded and pooled without this step handling it", name, d))
+		} else {
+			c.OK(name+".exhaustive", c.P.Pos(fd.Decl.Pos()), fmt.Sprintf("%s has an arm for each of the %d attribute kinds", name, len(real)))
+		}
+		if needReject {
+			if def == nil {
+				c.Fail(name+".default", c.P.Pos(fd.Decl.Pos()), name+" has no default arm rejecting unknown attribute kinds")
+			} else if m := armMentions(f, *def); m["fmt.Errorf"] || m["errors.New"] {
+				c.OK(name+".default", c.P.Pos(def.Clause.Pos()), "unknown attribute kinds are rejected (reserved range excepted)")
+			} else {
+				c.Fail(name+".default", c.P.Pos(def.Clause.Pos()), name+": the default arm no longer rejects unknown attribute kinds")
+			}
+		}
+	}
+	if pk != nil {
+		check(c.P.Func(txPkg, "Attribute", "DecodeBinary"), "Attribute.DecodeBinary", true)
+		check(c.P.Func(txPkg, "Attribute", "EncodeBinary"), "Attribute.EncodeBinary", true)
+	}
+	check(c.P.Func("pkg/core", "Blockchain", "verifyTxAttributes"), "Blockchain.verifyTxAttributes", false)
+}
+
+// ---------------------------------------------------------------------------
+// C03 historic-root
+
+func ruleHistoricRoot(c *Ctx) {
+	fd := c.P.Func("pkg/core", "Blockchain", "GetTestHistoricVM")
+	if fd == nil {
+		c.Lost("anchor", "GetTestHistoricVM not found")
+		return
+	}
+	f := c.P.NewFuncCFG(fd)
+	ts := f.CallSites("pkg/core/mpt.NewTrieStore")
+	if len(ts) != 1 {
+		c.Lost("trie-store", fmt.Sprintf("expected one NewTrieStore call, found %d", len(ts)))
+		return
+	}
+	s := ts[0]
+	m0 := f.Mentions(s.call.Args[0], s.blk)
+	// root of height Index-1 of the block that becomes the context's block
+	var blockObj types.Object
+	for _, ic := range f.CallSites(symNewInteropCtx) {
+		if len(ic.call.Args) >= 3 {
+			blockObj = rootObj(f.Info, ic.call.Args[2])
+		}
+	}
+	rootOK := m0["pkg/core/stateroot.(*Module).GetStateRoot"] && m0["pkg/core/state#Root"]
+	minusOne := false
+	for _, gs := range f.CallSites("pkg/core/stateroot.(*Module).GetStateRoot") {
+		if len(gs.call.Args) == 1 {
+			if be, ok := ast.Unparen(gs.call.Args[0]).(*ast.BinaryExpr); ok && be.Op == token.SUB {
+				if tv := f.Info.Types[be.Y]; tv.Value != nil && tv.Value.String() == "1" && blockObj != nil && rootObj(f.Info, be.X) == blockObj && f.DirectMentions(be.X)[fldBlockIndex] {
+					minusOne = true
+				}
+			}
+		}
+	}
+	if rootOK && minusOne {
+		c.OK("root-of-previous-height", c.P.Pos(s.call.Pos()), "the historic store is rooted at the state root of (block.Index-1) of the very block the context executes in")
+	} else {
+		c.Fail("root-of-previous-height", c.P.Pos(s.call.Pos()), "the historic trie store is no longer rooted at GetStateRoot(b.Index-1) of the block handed to the interop context: a historic invocation would read another height's storage")
+	}
+	if len(s.call.Args) >= 3 && f.Mentions(s.call.Args[2], s.blk)["pkg/core/storage.NewPrivateMemCachedStore"] {
+		c.OK("private-layer", c.P.Pos(s.call.Pos()), "historic execution runs over a private cache layer: it cannot write through to the node's store")
+	} else {
+		c.Fail("private-layer", c.P.Pos(s.call.Pos()), "the historic trie store is not wrapped into a private cache layer: historic (read-only) execution could write into the live store")
+	}
+	// the mode follows the node's GC setting (inactive nodes must be invisible to historic reads)
+	res := f.CheckGate(f.Entry(), map[*cfgBlock]bool{s.blk: true}, Guard{ID: "too-old", Doc: "with RemoveUntraceableBlocks a height beyond the traceable window is refused", Alts: [][]string{{symBC + "GetMaxTraceableBlocks", fldBlockIndex}}},
+		symAssume("pkg/config#RemoveUntraceableBlocks", true))
+	if res.OK {
+		c.OK("retention-guard", c.P.Pos(fd.Decl.Pos()), res.Msg)
+	} else {
+		c.Fail("retention-guard", c.P.Pos(fd.Decl.Pos()), "historic VM no longer refuses heights whose state was garbage-collected: "+res.Msg, res.Path...)
+	}
+}
+
+// ---------------------------------------------------------------------------
+// C10 node-switch
+
+func ruleNodeSwitch(c *Ctx) {
+	pk := c.P.Pkg(mptPkg)
+	if pk == nil {
+		c.Lost("anchor", "package mpt not found")
+		return
+	}
+	impl := map[string]bool{"BranchNode": true, "ExtensionNode": true, "LeafNode": true, "HashNode": true, "EmptyNode": true}
+	n := 0
+	for _, fd := range c.P.AllFuncDecls() {
+		if fd.Pkg != pk || fd.Decl.Body == nil {
+			continue
+		}
+		f := c.P.NewFuncCFG(fd)
+		for i, arms := range typeSwitches(pk.TypesInfo, fd.Decl.Body) {
+			seen := map[string]bool{}
+			var def *switchArm
+			isNode := false
+			for j, a := range arms {
+				if a.Default {
+					def = &arms[j]
+				}
+				for _, t := range a.TypeNames {
+					if impl[t] {
+						seen[t] = true
+						isNode = true
+					}
+				}
+			}
+			if !isNode || len(seen) < 2 {
+				continue // a single-type probe (if _, ok := n.(*HashNode)) style switch is not a dispatch
+			}
+			n++
+			key := fmt.Sprintf("%s.switch#%d", FuncKey(fd.Obj), i+1)
+			missing := setDiff(impl, seen)
+			switch {
+			case len(missing) == 0:
+				c.OK(key, c.P.Pos(fd.Decl.Pos()), "dispatch over all five node kinds")
+			case def != nil && (armMentions(f, *def)["builtin.panic"] || armMentions(f, *def)["pkg/core/mpt.ErrNotFound"] || armMentions(f, *def)["fmt.Errorf"] || armMentions(f, *def)["errors.New"]):
+				c.OK(key, c.P.Pos(fd.Decl.Pos()), fmt.Sprintf("dispatch over %v with a failing default for the rest", sortedKeys(seen)))
+			default:
+				// arms that fall out of the switch into a common tail are fine when the function handles the rest after it
+				c.Unclassified(key, c.P.Pos(fd.Decl.Pos()), fmt.Sprintf("node kinds %v have no arm and there is no failing default (they fall through to the code after the switch)", missing))
+			}
+		}
+	}
+	c.Floor("node-kind dispatch switches", n, 10)
+}
